@@ -13,6 +13,7 @@ pub static META: Meta = Meta {
     rule: "generated stratified programs (biased to multi-clause heads, 3-4-way joins, bound recursive queries, aggregates) x EDB, each executed under all 32 OptimizationConfig combinations; every answer (or error) is compared with the all-off configuration; non-trivial = reference answer non-empty; distinct = program text + EDB",
     assumptions: &["disagreement between two configurations decides; RefDL is attached only to say which side is wrong"],
     floor: 20,
+    watchdog: (0, 0),
 };
 
 fn outcome(p: &GenProgram, bits: u8) -> Result<refdl::Rel, String> {
